@@ -25,6 +25,13 @@ PROPS = {
             "trusted_base": [E_MODEL, PY_SEM, STUBS, "z3/cvc5 soundness"],
             "assumptions": ["Time(x, format='isot', precision=9) accepts exactly Time instances among the modelled argument kinds"],
             "bounded_bounds": "dims 0..13, all listed invalid-argument kinds, dtypes bool/int64/float32/float64/complex64/complex128"},
+    "C13": {"level": "proof", "modules": ["contracts.core"],
+            "technique": "contract-based deductive verification (AST->z3 nonlinear real arithmetic, division-free) + bounded differential replay",
+            "level_text": "to_linear/to_circular/to_stokes/to_intensity/Stokes access verified element-wise against the formulas of the statement for every complex sample value, both bases, both widths, NumPy and Dask containers; unitarity, round trips, basis independence of Stokes, I^2=Q^2+U^2+V^2, I>=0 and I=sum of intensities are lemmas discharged over compositions of the real methods; float rounding (a few ulp) only in the bounded layer",
+            "level_note": "trusted: pyvc's encoding, stubs np.take/np.stack/.real/.imag/.conj/NEP-50 promotion (answered by the installed NumPy), 1/sqrt(2) as a symbolic constant h with 2h^2=1, solver soundness",
+            "trusted_base": [E_MODEL, PY_SEM, STUBS, "z3/cvc5 soundness"],
+            "assumptions": ["complex arithmetic exact (model E); bounded layer tolerance 1e-5 relative to the largest sample"],
+            "bounded_bounds": "N in {0..13}, nchan 1..3, extra dim 1..3, coded pseudo-random samples in [-1,1)"},
 }
 
 NOT_APPLICABLE = {}
